@@ -1281,6 +1281,10 @@ def np_array(eng, st, args, kw, node):
             r = elementwise(eng, st, trunc, x)
             r.esort = INT
             return materialise(eng, st, r)
+        if want == 'int' and o.esort == BOOL:
+            r = elementwise(eng, st, lambda b: z3.If(truth(b), z3.IntVal(1), z3.IntVal(0)), x)
+            r.esort = INT
+            return materialise(eng, st, r)
         raise OutOfSubset('np.array conversion %s -> %s' % (o.esort, want))
     if isinstance(v, (tuple, list)) and not isinstance(v, Opaque) and len(v) == 2 and all(isinstance(e, (Row, Ref)) and ndim_of(eng, st, e) == 1 for e in v) and dt is None:
         r1, r2 = as_row(eng, st, v[0]), as_row(eng, st, v[1])
